@@ -68,10 +68,16 @@ PPGroups == {Grp(<<RC("applied", t_first)>>, l, EId(1), n) : l \in {"default", "
             \cup {Grp(<<RC("applied", t_first)>>, "expr", e, FALSE) : e \in Exprs1}
             \cup {Grp(<<RC("applied", t_first), RulePool[i]>>, "expr", e, FALSE) : i \in {1, 9, 21, 22, 25}, e \in Exprs2}
 PPCases == {[G |-> Gate(r, Empty, Empty), pp |-> k] : r \in PPGroups, k \in PPKinds}
+\* nest{T} = T: the same gates with marker items wrapped in a nested pipeline (they must see the state, the
+\* applied items and the field tracking of the enclosing pipeline)
+NestCases == {Gate(r, Empty, Empty) : r \in RuleGroups} \cup {Gate(Empty, i, Empty) : i \in ItemGroups}
+             \cup {Gate(Empty, Empty, f) : f \in FieldGroups}
 ASSUME LET S == SetToSeq(Cases)
            P == SetToSeq(PPCases)
-       IN  ndJsonSerialize(IOEnv.VERIF_OUT, [i \in 1..Len(S) |-> [id |-> i, G |-> S[i], pp |-> "-"]]
-                                            \o [i \in 1..Len(P) |-> [id |-> Len(S) + i] @@ P[i]])
+           Nn == SetToSeq(IF Quick THEN RandomSubset(1500, NestCases) ELSE NestCases)
+       IN  ndJsonSerialize(IOEnv.VERIF_OUT, [i \in 1..Len(S) |-> [id |-> i, G |-> S[i], pp |-> "-", nest |-> FALSE]]
+                                            \o [i \in 1..Len(P) |-> [id |-> Len(S) + i, nest |-> FALSE] @@ P[i]]
+                                            \o [i \in 1..Len(Nn) |-> [id |-> Len(S) + Len(P) + i, G |-> Nn[i], pp |-> "-", nest |-> TRUE]])
 Init == x = 0
 Next == UNCHANGED x
 =============================================================================
